@@ -1198,7 +1198,10 @@ bool TypeAuditor::AddLocalVariable(const std::string& name, const Typification& 
       varIter->arg.type = type;
       varIter->enabled = true;
       varIter->level = 0;
-       return true;
+      if (isArgDeclaration) {
+        functionArgsID.emplace_back(static_cast<size_t>(std::distance(begin(localVars), varIter)));
+      }
+      return true;
     }
   } else {
     localVars.emplace_back(LocalData{ TypedID{name, type}, 0, 0, true });
